@@ -55,14 +55,15 @@ type Link struct {
 	Queue      []*Frame // emitted, not yet delivered or dropped
 	Peer       int      // link index frames are delivered to (-1: scripted peer reads the queue)
 	Sent       int
-	rx         chan func()     // receive goroutine's inbox (created on first no-wait injection)
-	fd         int             // fd link: the simulated descriptor
-	fdrx       chan []byte     // fd link: frames waiting to be read by the endpoint's dispatch loop
-	lastRx     int             // fd link: length of the last frame queued for the dispatch loop
-	fdDead     bool            // fd link: the dispatch loop has returned
-	FailWrites int             // injected fault: the next n writes to this link fail with no-buffer-space and emit nothing
-	Addrs      []tcpip.Address // addresses the harness assigned to this link's interface (sources the stack may use on it)
-	NoLog      bool            // frames of this link are left out of the event-log hash (their bytes depend on map iteration order)
+	rx         chan func()                                                                                  // receive goroutine's inbox (created on first no-wait injection)
+	fd         int                                                                                          // fd link: the simulated descriptor
+	fdrx       chan []byte                                                                                  // fd link: frames waiting to be read by the endpoint's dispatch loop
+	lastRx     int                                                                                          // fd link: length of the last frame queued for the dispatch loop
+	fdDead     bool                                                                                         // fd link: the dispatch loop has returned
+	FailGuard  func(proto tcpip.NetworkProtocolNumber, hdr buffer.View, payload buffer.VectorisedView) bool // frames the fault model does not allow to fail
+	FailWrites int                                                                                          // injected fault: the next n writes to this link fail with no-buffer-space and emit nothing
+	Addrs      []tcpip.Address                                                                              // addresses the harness assigned to this link's interface (sources the stack may use on it)
+	NoLog      bool                                                                                         // frames of this link are left out of the event-log hash (their bytes depend on map iteration order)
 }
 
 func (l *Link) MTU() uint32                                  { return l.mtu }
@@ -80,11 +81,16 @@ func (l *Link) WritePacket(r *stack.Route, hdr buffer.Prependable, payload buffe
 	if w.storm() {
 		return nil
 	}
-	if l.FailWrites > 0 {
+	if l.FailWrites > 0 && (l.FailGuard == nil || !l.FailGuard(protocol, hdr.View(), payload)) {
 		// injected fault: the device refuses the frame (transmit queue full)
 		l.FailWrites--
 		w.Faults["link_write_error"]++
 		w.Log.Byte(0xfe)
+		if w.OnLinkError != nil {
+			h := hdr.View()
+			data := append(append(make([]byte, 0, len(h)+payload.Size()), h...), payload.ToView()...)
+			w.OnLinkError(&Frame{ID: -1, Link: l.Idx, Proto: protocol, Data: data, At: time.Since(w.T0)})
+		}
 		return tcpip.ErrNoBufferSpace
 	}
 	h := hdr.View()
@@ -149,38 +155,39 @@ func (w *World) c06(f *Frame) {
 
 // World is one simulated run.
 type World struct {
-	Rng       *sim.Rand // step generation (explore mode only)
-	yrng      *sim.Rand
-	T0        time.Time
-	Links     []*Link
-	nframes   int
-	Log       sim.Hash
-	Emitted   []*Frame // frames emitted since the last ClearEmitted
-	History   []*Frame // delivered frames, for stale replay (bounded)
-	OnEmit    func(f *Frame)
-	OnDeliver func(f *Frame) // called before a frame is handed to the receiving stack
-	OnDrop    func(f *Frame)
-	Steps     []Step
-	Tape      []byte // yield decisions taken (1 = yielded)
-	tapePos   int
-	Replay    bool
-	YieldP    float64
-	Faults    map[string]int64
-	Probes    map[string]int64
-	Yields    map[string]int64
-	NSteps    int
-	Viol      *Violation
-	stacks    []*stack.Stack
-	Trace     []string // human-readable event log (kept in memory, written after the bubble)
-	TraceOn   bool
-	ipid      uint16 // identification counter of packets the scripted peer builds
-	mon6      *Monitor
-	stormAt   time.Duration
-	stormN    int
-	DropIDs   map[int]bool        // emissions (by frame number) the wire loses: fault positions chosen up front
-	DropGuard func(f *Frame) bool // frames the fault model does not allow to lose
-	rel       *relTrace
-	peerMon   bool // a scripted-peer world: its own monitor sees every frame
+	Rng         *sim.Rand // step generation (explore mode only)
+	yrng        *sim.Rand
+	T0          time.Time
+	Links       []*Link
+	nframes     int
+	Log         sim.Hash
+	Emitted     []*Frame // frames emitted since the last ClearEmitted
+	History     []*Frame // delivered frames, for stale replay (bounded)
+	OnEmit      func(f *Frame)
+	OnDeliver   func(f *Frame) // called before a frame is handed to the receiving stack
+	OnDrop      func(f *Frame)
+	OnLinkError func(f *Frame) // an injected link write error fired: the frame the device refused
+	Steps       []Step
+	Tape        []byte // yield decisions taken (1 = yielded)
+	tapePos     int
+	Replay      bool
+	YieldP      float64
+	Faults      map[string]int64
+	Probes      map[string]int64
+	Yields      map[string]int64
+	NSteps      int
+	Viol        *Violation
+	stacks      []*stack.Stack
+	Trace       []string // human-readable event log (kept in memory, written after the bubble)
+	TraceOn     bool
+	ipid        uint16 // identification counter of packets the scripted peer builds
+	mon6        *Monitor
+	stormAt     time.Duration
+	stormN      int
+	DropIDs     map[int]bool        // emissions (by frame number) the wire loses: fault positions chosen up front
+	DropGuard   func(f *Frame) bool // frames the fault model does not allow to lose
+	rel         *relTrace
+	peerMon     bool // a scripted-peer world: its own monitor sees every frame
 }
 
 // Violation is the first oracle failure of a run.
@@ -496,13 +503,14 @@ func (w *World) InFlight() int {
 // FaultCfg are the per-run wire fault rates (swarm parameters).
 type FaultCfg struct {
 	Drop, Dup, Reorder, Stale, Delay float64
-	Budget                           int // faults allowed before the wire turns benign
+	WriteErr                         float64 // the emitting device refuses the next frame (link write error)
+	Budget                           int     // faults allowed before the wire turns benign
 	Undroppable                      func(f *Frame) bool
 	MaxDelay                         time.Duration
 }
 
 func (w *World) faultsFired() int {
-	return int(w.Faults["drop"] + w.Faults["duplicate"] + w.Faults["reorder"] + w.Faults["stale_replay"] + w.Faults["delay"])
+	return int(w.Faults["drop"] + w.Faults["duplicate"] + w.Faults["reorder"] + w.Faults["stale_replay"] + w.Faults["delay"] + w.Faults["link_write_error"])
 }
 
 // WireStep draws one wire action. ok=false when nothing is in flight.
@@ -542,6 +550,8 @@ func (w *World) WireStep(fc *FaultCfg) (Step, bool) {
 		return Step{Op: "deliver", A: link, B: w.Rng.Range(1, len(q)-1), C: mode}, true
 	case r < fc.Drop+fc.Dup+fc.Reorder+fc.Stale && len(w.History) > 0:
 		return Step{Op: "stale", A: w.Rng.Intn(len(w.History)), C: mode}, true
+	case r < fc.Drop+fc.Dup+fc.Reorder+fc.Stale+fc.Delay+fc.WriteErr && r >= fc.Drop+fc.Dup+fc.Reorder+fc.Stale+fc.Delay:
+		return Step{Op: "linkerr", A: link, B: w.Rng.Intn(2)}, true
 	case r < fc.Drop+fc.Dup+fc.Reorder+fc.Stale+fc.Delay && fc.MaxDelay > 0:
 		w.Faults["delay"]++
 		return Step{Op: "adv", D: int64(time.Duration(w.Rng.Intn(int(fc.MaxDelay/time.Millisecond)+1)) * time.Millisecond)}, true
@@ -562,6 +572,11 @@ func (w *World) ApplyWire(s Step) bool {
 		w.Dup(s.A, s.B)
 	case "stale":
 		w.Stale(s.A, s.C)
+	case "linkerr":
+		if s.A >= 0 && s.A < len(w.Links) {
+			w.Links[s.A].FailWrites += 1 + s.B%2
+			w.Probes["link_write_faults_armed"]++
+		}
 	case "adv":
 		w.Advance(time.Duration(s.D))
 	default:
